@@ -6,7 +6,7 @@ from engine.graphs import GRAPHS, HEAVY
 
 _WHAT = ("for two dictionaries o1, o2: keys(o1) == keys(o2) and equal (typed) values under them - i.e. equal fingerprints - "
          "imply equal outcomes. A key missing from any keys() gives a model with o1, o2 differing exactly there")
-ALL = [GRAPHS[g] for g in sorted(GRAPHS)]
+ALL = [GRAPHS[g] for g in sorted(GRAPHS) if "effopt" not in GRAPHS[g].tags]   # effect options are outside C01 (DESIGN 7/C01)
 
 # quick: o2 = o1 with ONE slot replaced by an independent symbolic slot (changed, deleted or added), one cube per slot
 for _tier, _gs in (("quick", [g for g in ALL if g.gid not in HEAVY]), ("thorough", [g for g in ALL if g.gid in HEAVY])):
@@ -33,3 +33,51 @@ for _tier, _gs in (("quick", [g for g in _HIST if g.gid in _QUICK_HIST]), ("thor
                     "fails exactly as the same graph with caching switched off (labrea.cache.disabled()), whatever was evaluated before",
                bounds="histories of length 3 of this shape; real MemoryCache dict, Cached.evaluate, cache handlers and "
                       "Dataset._composed in the loop; fingerprint bytes abstracted by stub S1 (lemma J, C03-K3)")
+
+
+# ---------------------------------------------------------------------------------------------------------
+# L1x: datasets derived with with_options / with_default_options share one cache object with their parent and siblings
+from labrea import Option, dataset
+
+from engine.api import harness
+from engine.hutil import note, outcome, quiet, untraced
+from engine.refsem import same
+
+
+@harness("C01", lemma="L1x-shared-cache", cubes={"first": [0, 1, 2, 3], "second": [0, 1, 2, 3]}, stubs=("S1",),
+         example=dict(first=1, second=2, a=5, px=False, x=0, p1=2, p2=3, p3=4), timeout=600,
+         bounds="a cached dataset d (reads A and S.X with a default, has a callback) and three derivatives sharing its cache: "
+                "d.with_default_options({'S': {'X': p1}}), d.with_default_options({'S': {'X': p2}}), d.with_options({'S': {'X': p3}}); "
+                "any two of the four are evaluated one after the other on the SAME caller dictionary (S.X present or absent); "
+                "unbounded ints; real MemoryCache; stub S1",
+         what="each of the four datasets returns the value for its own pre-set / default options whatever a sibling sharing the "
+              "cache evaluated just before on the same dictionary")
+def shared_derivatives(first: int, second: int, a: int, px: bool, x: int, p1: int, p2: int, p3: int) -> int:
+    with untraced():
+        def body(a=Option("A"), s=Option("S.X", -1)):
+            return (a, s)
+
+        d = dataset(body, callback=lambda v: ("cb", v))
+        fam = [d, d.with_default_options({"S": {"X": p1}}), d.with_default_options({"S": {"X": p2}}), d.with_options({"S": {"X": p3}})]
+    o = {"A": a}
+    if px:
+        o["S"] = {"X": x}
+
+    def expect(i):
+        if i == 0:
+            sx = x if px else -1
+        elif i == 1:
+            sx = x if px else p1
+        elif i == 2:
+            sx = x if px else p2
+        else:
+            sx = p3
+        return ("cb", (a, sx))
+
+    with quiet():
+        for i in (first, second, first):
+            got = outcome(lambda: fam[i](o))
+            note("dataset", i, "options", o, "got", got, "expected", expect(i))
+            if got[0] != "ok" or not same(got[1], expect(i)):
+                return 0
+    return 2
